@@ -1,0 +1,32 @@
+//go:build verif
+
+package statsd
+
+import (
+	"errors"
+	"time"
+)
+
+// VerifSetNow replaces the clock the aggregator reads in Reset (property C09).
+func (a *MetricAggregator) VerifSetNow(now func() time.Time) {
+	a.now = now
+}
+
+// VerifStandaloneAggregator builds the standalone sink of s exactly as the server does at
+// start-up (createStandaloneSink: agrFactory from the Server's fields, BackendHandler,
+// workers) and returns the aggregator of the first worker.  Nothing is started.
+func VerifStandaloneAggregator(s *Server) (*MetricAggregator, error) {
+	h, _, err := s.createStandaloneSink()
+	if err != nil {
+		return nil, err
+	}
+	bh, ok := h.(*BackendHandler)
+	if !ok || len(bh.workers) == 0 {
+		return nil, errors.New("standalone sink has no backend handler workers")
+	}
+	a, ok := bh.workers[0].aggr.(*MetricAggregator)
+	if !ok {
+		return nil, errors.New("worker aggregator is not a MetricAggregator")
+	}
+	return a, nil
+}
